@@ -1618,3 +1618,13 @@ Proof.
     unfold unrolled in H. rewrite H in L. apply L.
     apply Nat.lt_succ_r. eapply Nat.le_trans; [apply depth_written_out | exact Hd].
 Qed.
+
+(* metacommands.repeat returns b"".join(chunks) or the left fold 'result += chunk': the same bytes *)
+Lemma fold_app_from (chunks : list (list Z)) : forall acc, fold_left (@app Z) chunks acc = acc ++ List.concat chunks.
+Proof.
+  induction chunks as [|x r IH]; intros acc; simpl; [rewrite app_nil_r; reflexivity|].
+  rewrite IH, app_assoc. reflexivity.
+Qed.
+
+Lemma join_is_fold (chunks : list (list Z)) : fold_left (@app Z) chunks [] = List.concat chunks.
+Proof. apply fold_app_from. Qed.
